@@ -4,6 +4,7 @@ import (
 	"fmt"
 	"github.com/trustbloc/sidetree-go/pkg/patch"
 	"github.com/trustbloc/sidetree-go/pkg/versions/1_0/model"
+	"sync"
 
 	"github.com/trustbloc/sidetree-go/pkg/api/protocol"
 	"github.com/trustbloc/sidetree-go/pkg/document"
@@ -145,6 +146,57 @@ func runC11(r *fw.Runner) {
 				}
 			})
 		}
+	}
+	// (c) several goroutines apply validated ietf patches to their own documents through one composer at once: each result keeps
+	// the keys and services of its own document
+	for b := 0; b < r.N(2, 10); b++ {
+		r.Case("concurrent-json-patches", func(c *fw.Case) {
+			rr := c.Rng
+			const G, rounds = 16, 30
+			type job struct {
+				doc  document.Document
+				want interface{}
+			}
+			jobs := make([]job, G)
+			for g := range jobs {
+				d := map[string]interface{}{"publicKey": gen.RandKeys(rr, 2), "service": gen.RandServices(rr, 2), "note": g}
+				ld, err := sut.ToDoc(d)
+				if err != nil {
+					c.Inconclusive("conversion")
+					return
+				}
+				jobs[g] = job{ld, oracle.NormalizeDoc(protectedView(d))}
+			}
+			lp, _ := sut.ToPatch(gen.PJSON(map[string]interface{}{"op": "add", "path": "/stamp", "value": "x"}))
+			var mu sync.Mutex
+			var bad []string
+			var wg sync.WaitGroup
+			for g := 0; g < G; g++ {
+				wg.Add(1)
+				go func(g int) {
+					defer wg.Done()
+					for i := 0; i < rounds; i++ {
+						res, err := composer.ApplyPatches(jobs[g].doc, []patch.Patch{lp})
+						var got map[string]interface{}
+						if err == nil {
+							got, err = sut.FromDoc(res)
+						}
+						if err != nil || !oracle.JSONEqual(oracle.NormalizeDoc(protectedView(got)), jobs[g].want) {
+							mu.Lock()
+							bad = append(bad, fmt.Sprintf("goroutine %d round %d: err=%v", g, i, err))
+							mu.Unlock()
+						}
+					}
+				}(g)
+			}
+			wg.Wait()
+			c.Count("concurrent-json-patch-applications", G*rounds)
+			c.Evals(G * rounds)
+			c.Sig("concurrent-ietf")
+			if len(bad) > 0 {
+				c.Failf("protected-member-altered-under-concurrent-use", map[string]interface{}{"failures": len(bad), "first": bad[0]}, "%d of %d concurrent applications of a validated ietf-json-patch altered keys / services (or failed): %s", len(bad), G*rounds, bad[0])
+			}
+		})
 	}
 	// (b) random sequences
 	for b := 0; b < r.N(150, 6000); b++ {
